@@ -670,3 +670,93 @@ CLI = register(Stream(
           "accepted spellings (model vs implementation only); an exit status other than 0/1 (signal, sanitizer) is a "
           "violation; non-trivial = every case; distinct by the full line"),
     nontrivial=None))
+
+
+# --------------------------------------------------------------------------------------------
+# wheel / cross: the wheel layer of the sieve chain (Wheel::addSievingPrime, EratSmall/Medium/Big)
+# --------------------------------------------------------------------------------------------
+def _primes_upto(n):
+    return oracle.primes_in(0, n)
+
+def gen_wheel(tier, r):
+    q = tier == "quick"
+    ops = []
+    small = [p for p in _primes_upto(3000) if p >= 7]
+    def add(label, M, p, low, stop):
+        ops.append((label, f"wheel {M} {p} {low} {stop}"))
+    # every prime class x every quotient class: segment starts placed so that the first quotient
+    # q0 = (low+6)/p + 1 runs through all residues mod M
+    for M in (30, 210):
+        for pr in [7, 11, 13, 17, 19, 23, 29, 31]:
+            cand = [p for p in small if p % 30 == pr % 30]
+            for p in (r.sample(cand, 2) if q else r.sample(cand, 6)):
+                for x in (r.sample(range(M), 12) if q else range(M)):
+                    qq = p + x + M * r.randrange(0, 50)
+                    low = (p * qq - 7) // 30 * 30
+                    add(f"classes-{M}", M, p, max(0, low), r.choice([UMAX, p * qq + 10**6, p * qq, p * qq - 1, p * (qq + 10)]))
+    # p^2 placements: first multiple is p*p
+    for p in (r.sample(small, 20) if q else small):
+        for M in (30, 210):
+            low = (p * p) // 30 * 30 - 30 * r.choice([0, 1, 2, 10])
+            add("square", M, p, max(0, low), r.choice([UMAX, p * p, p * p + 1, p * p - 1, p * p + 12 * p]))
+    # large primes (EratBig territory) and the top of the range: wrap guards
+    bigs = [oracle.next_prime_ge(x) for x in [2**16 + 1, 10**6, 2**31, 2**32 - 300, 2**32 + 15, 3 * 10**9, 4294967291 - 1000]]
+    for p in bigs:
+        for M in (30, 210):
+            for _ in range(3 if q else 20):
+                k = r.randrange(0, 2**64 // p)
+                low = min(UMAX - 36, p * k) // 30 * 30
+                add("large", M, p, low, r.choice([UMAX, UMAX - r.randrange(0, 10**6), low + r.randrange(0, 40 * p)]))
+            for d in [0, 1, 2, 7, 30, 210, 1000]:
+                low = (UMAX - d * p) // 30 * 30
+                add("top-wrap", M, p, max(0, low - r.choice([0, 30, 30 * 1000])), r.choice([UMAX, UMAX - 1, UMAX - d]))
+    for _ in range(100 if q else 3000):
+        M = r.choice([30, 210])
+        p = r.choice(small + bigs)
+        low = r.randrange(0, 2**r.choice([10, 20, 40, 60, 64]) // 30) * 30
+        low = min(low, (UMAX - 36) // 30 * 30)
+        add("random", M, p, low, r.choice([UMAX, low + r.randrange(0, 10**7), r.randrange(low, UMAX)]))
+    return ops
+
+WHEEL = register(Stream(
+    "wheel", gen_wheel,
+    rule=("cases = Wheel30_t / Wheel210_t::addSievingPrime(prime, segmentLow) with stop_ = stop on the real class (a subclass "
+          "records what storeSievingPrime receives): every prime class x every quotient class mod 30 / 210, p^2 placements, "
+          "primes > 2^32, products at the top of the 64-bit range (both overflow guards); compared with the Lean model "
+          "Wheel.addSievingPrime (stored or not, sievingPrime, multipleIndex, wheelIndex) and with a 128-bit oracle in the "
+          "harness; non-trivial = the prime was stored; distinct by the full line"),
+    nontrivial=lambda o, obs: "none" not in obs))
+
+def gen_cross(tier, r):
+    q = tier == "quick"
+    ops = []
+    small = [p for p in _primes_upto(5000) if p >= 7]
+    for pr in [7, 11, 13, 17, 19, 23, 29, 31]:
+        cand = [p for p in small if p % 30 == pr % 30]
+        for p in (r.sample(cand, 2) if q else r.sample(cand, 8)):
+            for alg in ["small", "medium", "big"]:
+                S = r.choice([1024, 4096, 16384]) if alg == "big" else r.choice([1000, 1024, 3000, 4096, 16384, 17000])
+                for start in ([p * p, r.randrange(0, 10**9)] if q else [0, p * p, p * p - 31, r.randrange(0, 10**6), r.randrange(0, 10**12), r.randrange(10**15, 10**18)]):
+                    low = start // 30 * 30
+                    nseg = r.choice([1, 2, 5]) if p < 200 else r.choice([3, 8, 20])
+                    l1 = r.choice([512, 1024, 4096, 32768])
+                    ops.append((f"{alg}-{pr}", f"cross {alg} {p} {low} {UMAX} {S} {nseg} {l1}"))
+    # primes larger than the segment: several segments without a multiple (EratBig / EratMedium re-bucketing)
+    for p in [oracle.next_prime_ge(x) for x in ([40000, 10**6 + 3] if q else [40000, 65537, 10**5, 10**6 + 3, 2**24 + 1])]:
+        for alg in ["medium", "big"]:
+            S = r.choice([1024, 4096])
+            if alg == "medium" and p // 30 * 6 + 6 > 2**23 - 1:
+                continue
+            low = (p * p) // 30 * 30 - 30 * r.randrange(0, 3)
+            ops.append((f"{alg}-sparse", f"cross {alg} {p} {max(0, low)} {UMAX} {S} {60 if q else 300} 32768"))
+    return ops
+
+CROSS = register(Stream(
+    "cross", gen_cross,
+    rule=("cases = one sieving prime added with addSievingPrime and crossed off over consecutive segments by the real "
+          "EratSmall (incl. L1 sub-segments and the 8-way unrolled loop), EratMedium (64 bucket lists) and EratBig (wheel210, "
+          "segment rotation); observation = the ordered list of NUMBERS whose bits were cleared; the harness checks that each "
+          "is p*q with q >= p coprime to the wheel and that none is missing; the Lean model (step30 / step210 on the "
+          "regenerated rows) must clear exactly the same numbers; prime classes 7..31, segment sizes incl. non powers of two "
+          "for Small/Medium, starts at 0, p^2, p^2-31 and up to 1e18; non-trivial = at least one bit cleared; distinct by the full line"),
+    nontrivial=lambda o, obs: "n=0 " not in obs))
